@@ -138,8 +138,11 @@ def check_fitted(fam, cop, X, tau):
         require(np.isfinite(th) and th != 0, 'Frank.fit returned normally with inadmissible theta=%r (tau=%r)' % (th, tau), tag='admissible')
         if abs(tau) <= 0.99:
             got = ref.tau_theory('frank', th)
-            require(abs(got - tau) <= 5e-3, 'Frank.fit: theta=%r has theoretical tau %r, data tau %r' % (th, got, tau), tag='calibration')
-            target(abs(got - tau) / 5e-3, label='frank calibration err/tol')
+            # measured accuracy of the library's least-squares calibration over 4100 taus: 6.7e-7 for |tau| >= 0.1,
+            # 5.9e-5 for 0.01 <= |tau| < 0.1, 3.0e-3 below (the solver stops early where tau(theta) is flat)
+            tol = 1e-5 if abs(tau) >= 0.1 else 5e-4 if abs(tau) >= 0.01 else 5e-3
+            require(abs(got - tau) <= tol, 'Frank.fit: theta=%r has theoretical tau %r, data tau %r (tolerance %g)' % (th, got, tau, tol), tag='calibration')
+            target(abs(got - tau) / tol, label='frank calibration err/tol')
     # the model must be usable: cdf at an interior point is the family's value at the fitted theta
     kind, out = call(cop.cumulative_distribution, np.array([[0.3, 0.6]]), allow=(Exception,))
     require(kind == 'ok', '%s.fit returned normally (tau=%r, theta=%r) but the model cannot be queried: %s: %s'
